@@ -8,6 +8,7 @@
 #include "hgv_io.h"
 
 #include <hgraph/runtime/feedback_node.h>
+#include <hgraph/runtime/node_error.h>
 #include <hgraph/runtime/push_source_node.h>
 #include <hgraph/runtime/runtime.h>
 #include <hgraph/types/graph_wiring.h>
@@ -79,7 +80,7 @@ namespace
     }
     const TSValueTypeMetaData *schema_of(const Ty &t)
     {
-        const TSValueTypeMetaData *s = t.base == 2 ? metas().ts_float : metas().ts_int;
+        const TSValueTypeMetaData *s = t.base == 3 ? node_error_ts_meta() : (t.base == 2 ? metas().ts_float : metas().ts_int);
         for (auto it = t.dims.rbegin(); it != t.dims.rend(); ++it) { s = TypeRegistry::instance().tsl(s, (std::size_t)*it); }
         return s;
     }
@@ -88,6 +89,7 @@ namespace
     struct Src
     {
         int                      kind{0};  // 0 peered, 1 delayed, 2 null, 3 structural
+        int                      okind{0}; // peered: 0 ordinary output, 1 hidden error output, 2 recordable state
         std::int64_t             ref{0};
         std::vector<std::size_t> path;
         std::vector<Src>         children;
@@ -118,6 +120,7 @@ namespace
     {
         Src s;
         s.kind = (int)l.at(p++);
+        if (s.kind == 6 || s.kind == 7) { s.okind = s.kind - 5; s.kind = 0; }   // peered, hidden error / recordable-state output
         if (s.kind == 0 || s.kind == 1)
         {
             s.ref          = l.at(p++);
@@ -134,7 +137,7 @@ namespace
 
     // statements wired into a separate SubGraph-kind Wiring (what compile_subgraph / nested_<> composes into):
     // inputs are child-local nodes, declared boundary arguments, or outer ports captured from the parent wiring
-    struct ChildIn { int kind{0}; std::int64_t ref{0}; };   // 0 child-local node, 4 declared argument, 5 captured parent port
+    struct ChildIn { int kind{0}; std::int64_t ref{0}; std::int64_t elem{-1}; };   // 0 child-local node, 4 declared argument (elem >= 0: that element of a TSL argument), 5 captured parent port
     struct ChildStmt
     {
         std::int64_t              cl{0}, child{0}, def{0};
@@ -205,7 +208,7 @@ namespace
                 case 13:
                     for (ChildStmt &c : p.child_stmts)
                     {
-                        if (c.cl == l.at(1) && c.child == l.at(2)) { c.ins.push_back(ChildIn{(int)l.at(4), l.at(5)}); }
+                        if (c.cl == l.at(1) && c.child == l.at(2)) { c.ins.push_back(ChildIn{(int)l.at(4), l.at(5), l.size() > 6 ? l.at(6) : -1}); }
                     }
                     break;
                 default: break;
@@ -249,6 +252,7 @@ namespace
         if (depth == t.dims.size())
         {
             if (!in.valid()) { return 0; }
+            if (t.base == 3) { return 7; }   // a captured error was published
             if (t.base == 2) { return (std::int64_t)in.value().template checked_as<double>(); }
             return in.value().template checked_as<std::int64_t>();
         }
@@ -312,6 +316,7 @@ namespace
                 {
                     auto it = port_ty.find(s.ref);
                     if (it == port_ty.end()) { throw Inadmissible("ref"); }
+                    if (s.kind == 0 && s.okind == 1) { return Ty{3, {}}; }
                     Ty t = it->second;
                     for (std::size_t i = 0; i < s.path.size() && !t.dims.empty(); ++i) { t.dims.erase(t.dims.begin()); }
                     return t;
@@ -334,6 +339,14 @@ namespace
                 {
                     auto it = ports.find(s.ref);
                     if (it == ports.end()) { throw Inadmissible("node ref"); }
+                    if (s.okind == 1)
+                    {
+                        // exception_time_series(port): activate error capture on the producing instance (amended in
+                        // place), then address its hidden error output
+                        w.activate_error_capture(it->second.peered_node(), node_error_ts_meta(), {});
+                        return graph_wiring_detail::special_output_source(it->second, GraphEdgeSourceKind::ErrorOutput,
+                                                                          "exception_time_series");
+                    }
                     if (s.path.empty()) { return it->second; }
                     return WiringPortRef::peered_source(it->second.peered_node(), s.path, schema_of(type_of_src(s)));
                 }
@@ -464,12 +477,19 @@ namespace
             }
             builder.label("L" + std::to_string(s.label));
             Value         scalars = (s.kind == 4 || s.kind == 5 || s.kind == 3) ? Value{} : make_scalars(s);
+            // plain positional inputs (rank dependency, no explicit target path) go through the WiringPortRef
+            // overloads, as wire<> does; anything else through the WiringInputRef ones
+            const bool plain = std::all_of(s.ins.begin(), s.ins.end(), [](const Input &i) { return i.rank && i.tpath.empty(); });
+            const bool unique = s.uniq || s.kind == 4 || s.kind == 3;
             WiringPortRef out =
-                s.uniq || s.kind == 4 || s.kind == 3
-                    ? w.add_unique_node(def, std::move(builder), std::span<const WiringInputRef>{inputs.data(), inputs.size()},
-                                        std::move(scalars))
-                    : w.add_node(def, std::move(builder), std::span<const WiringInputRef>{inputs.data(), inputs.size()},
-                                 std::move(scalars));
+                plain ? (unique ? w.add_unique_node(def, std::move(builder), std::span<const WiringPortRef>{sources.data(), sources.size()},
+                                                    std::move(scalars))
+                                : w.add_node(def, std::move(builder), std::span<const WiringPortRef>{sources.data(), sources.size()},
+                                             std::move(scalars)))
+                      : (unique ? w.add_unique_node(def, std::move(builder), std::span<const WiringInputRef>{inputs.data(), inputs.size()},
+                                                    std::move(scalars))
+                                : w.add_node(def, std::move(builder), std::span<const WiringInputRef>{inputs.data(), inputs.size()},
+                                             std::move(scalars)));
             const WiringInstance *inst = out.peered_node();
             auto [it, fresh]           = creator.try_emplace(inst, s.label);
             rep[s.label]               = it->second;
@@ -552,7 +572,12 @@ namespace
                         std::vector<WiringPortRef> sources;
                         for (const ChildIn &in : c->ins)
                         {
-                            if (in.kind == 4) { sources.push_back(WiringPortRef::boundary_source((std::size_t)in.ref, {}, metas().ts_int)); }
+                            if (in.kind == 4 && in.elem >= 0)
+                            {
+                                // element `elem` of a structured (TSL) boundary argument, as projecting the argument port does
+                                sources.push_back(WiringPortRef::boundary_source((std::size_t)in.ref, {(std::size_t)in.elem}, metas().ts_int));
+                            }
+                            else if (in.kind == 4) { sources.push_back(WiringPortRef::boundary_source((std::size_t)in.ref, {}, metas().ts_int)); }
                             else if (in.kind == 5) { sources.push_back(child.capture_outer_source(wr.ports.at(in.ref))); }
                             else { sources.push_back(ports.at(in.ref)); }
                         }
@@ -602,6 +627,25 @@ namespace
         if (m.find("passive would deactivate every input") != std::string::npos) { return 9; }
         if (m.find("conflicting service/adaptor rank anchor") != std::string::npos) { return 10; }
         return 5;
+    }
+
+    // wire the same statements again and return the creator labels in compiled order (empty on any refusal)
+    Line compiled_labels(const Program &prog, const std::vector<std::int64_t> &order)
+    {
+        Line labels;
+        try
+        {
+            Wirer wr{prog};
+            for (std::int64_t label : order) { wr.exec_stmt(prog.stmts.at(label)); }
+            GraphBuilder gb = std::move(wr.w).finish();
+            for (const NodeBuilder &nb : gb.nodes())
+            {
+                const std::string lbl{nb.label()};
+                labels.push_back(lbl.size() > 1 && lbl[0] == 'L' ? std::stoll(lbl.substr(1)) : -1);
+            }
+        }
+        catch (const std::exception &) { labels.clear(); }
+        return labels;
     }
 
     void run_order(const Program &prog, std::int64_t k, const std::vector<std::int64_t> &order, hgv::Out &out)
@@ -669,6 +713,30 @@ namespace
             Line l{27, k, c};
             for (auto slot : *schema->active_inputs) { l.push_back((std::int64_t)slot); }
             out.line(l);
+        }
+        Line capt{30, k};
+        for (const NodeBuilder &nb : gb->nodes())
+        {
+            const std::string lbl{nb.label()};
+            const auto       *schema = nb.type().schema();
+            if (lbl.size() > 1 && lbl[0] == 'L' && schema != nullptr && schema->captures_errors) { capt.push_back(std::stoll(lbl.substr(1))); }
+        }
+        std::sort(capt.begin() + 2, capt.end());
+        out.line(capt);
+        // the compiled order must not depend on where the heap put things: build the same wiring twice more in
+        // this process, with allocations of assorted sizes in between, and compare the node orders
+        {
+            Line                               first(nodes.begin() + 3, nodes.end());
+            std::vector<std::unique_ptr<char[]>> junk;
+            std::int64_t                       same = 1;
+            for (int round = 0; round < 2; ++round)
+            {
+                for (int j = 0; j < 17 + 13 * round; ++j) { junk.emplace_back(new char[24 + ((j * 37 + (int)k * 11 + round * 101) % 400)]); }
+                if (round == 1) { for (std::size_t j = 0; j < junk.size(); j += 3) { junk[j].reset(); } }
+                Line again = compiled_labels(prog, order);
+                if (again != first) { same = 0; }
+            }
+            out.line({29, k, same});
         }
         std::vector<Line> edges;
         for (const GraphEdge &e : gb->edges())
